@@ -3631,7 +3631,13 @@ def to_base(lhs, rhs, ctx):
     if len(rhs) == 1:
         maximal_exponent = lhs
     else:
-        maximal_exponent = int(log_mold_multi(lhs, len(rhs), ctx))
+        # Largest power of the base that does not exceed lhs, found exactly:
+        # a float logarithm fails for 0 and can round at powers of the base.
+        if len(rhs) == 0:
+            raise ValueError("to_base needs at least one digit")
+        maximal_exponent = 0
+        while len(rhs) ** (maximal_exponent + 1) <= lhs:
+            maximal_exponent += 1
 
     res = []
     for i in range(maximal_exponent, -1, -1):
